@@ -188,8 +188,10 @@ PROPS = {
                 "comments, options insertSpaces true/false x tabSize 0..8: FMT (implementation edit vs formatter model), JUDGEFMT09 (edit "
                 "range = whole document by LspPos; LexSpec re-lexing of original and result: identical non-comment token kinds and literal "
                 "values; identical diagnostic kinds). " + TEXT_RULE,
-        "unproved_parts": ["format_preserves_tokens (lexNC (format (parse ts)) = NC ts for every valid program) is judged on every run with "
-                           "the independent lexer specification, not yet a theorem"],
+        "unproved_parts": ["format_preserves_tokens_partial IS a theorem for every syntactically valid text WITHOUT comments (any size, any "
+                           "layout, both indentation styles): the formatter model succeeds and its output tokenises (lexer specification "
+                           "and, by C06.lex_conforms, lexer model) into exactly the original token types incl. spellings and values; "
+                           "texts WITH comments and the preservation of diagnostics are judged on every run (JUDGEFMT09), not theorems"],
     },
     "C10": {
         "rule": "valid programs with comment lines (a) only in leading positions (declaration/statement/variable/parameter starts; 25% of the "
